@@ -182,10 +182,20 @@ def gJavaDoc (st : JavaStatus) : G Json := do
   pure (.obj ms)
 
 def gSettings : G RequestSettings := do
+  -- host names: the default, a usual one, arbitrary text, and plain names whose length (or the length of the
+  -- handshake frame they end up in: 10 bytes more with the default version) sits on a VarInt group boundary
   let host ← (do
+    let c ← G.below 8
+    if c < 3 then pure (asciiBytes "gamedig") else if c == 3 then pure (asciiBytes "mc.hypixel.net")
+    else if c < 6 then gUtf8 [] 255
+    else do
+      let l ← G.oneOf [0, 1, 116, 117, 118, 119, 126, 127, 128, 129, 255, 256, 300]
+      pure (List.replicate l (97 : UInt8)))
+  let pv ← (do
     let c ← G.below 6
-    if c < 3 then pure (asciiBytes "gamedig") else if c == 3 then pure (asciiBytes "mc.hypixel.net") else gUtf8 [] 255)
-  let pv ← (do let c ← G.below 4; if c < 2 then pure (-1 : Int) else if c == 2 then G.oneOf [760, 47, 0] else G.int 32)
+    if c < 2 then pure (-1 : Int) else if c == 2 then G.oneOf [760, 47, 0]
+    else if c == 3 then G.oneOf [127, 128, 129, 16383, 16384, 16385, 2097151, 2097152, 2097153, 268435455, 268435456, 2147483647, -2147483648, -128, -129]
+    else G.int 32)
   pure ⟨host, pv⟩
 
 def gTrailing : G Bytes := do
